@@ -52,6 +52,9 @@ pub struct Scenario {
     #[serde(default)]
     pub ctx_rows: Vec<String>,
     /// ... and through a hand-built context (request, policy, effect, matcher section names): serial rows per state
+    /// direct roles of each of `users` (sorted), per state — asked through get_roles_for_user next to the decisions
+    #[serde(default)]
+    pub rrows: Vec<Vec<String>>,
     #[serde(default)]
     pub ctx2: Option<Vec<String>>,
     #[serde(default)]
@@ -213,6 +216,14 @@ pub fn child(path: &str) -> i32 {
                             let got = iusers_ref(&rt, e, &sc.perms[k]);
                             if got != sc.irows[v][k] { mm.lock().push(format!("thread {}: implicit users({}) = {} after {} writes, serial = {}", ti, sc.perms[k], got, v, sc.irows[v][k])); }
                         }
+                        if sc.helpers && !sc.rrows.is_empty() && !sc.users.is_empty() && rng.below(2) == 1 {
+                            let k = rng.below(sc.users.len());
+                            let got = enc_list(&sorted(match e { E::Plain(x) => x.get_roles_for_user(&sc.users[k], None), E::Cached(x) => x.get_roles_for_user(&sc.users[k], None) }));
+                            if got != sc.rrows[v][k] { mm.lock().push(format!("thread {}: get_roles_for_user({}) = {} after {} writes, serial = {}", ti, sc.users[k], got, v, sc.rrows[v][k])); }
+                            let has = match e { E::Plain(x) => x.has_role_for_user(&sc.users[k], "admin", None), E::Cached(x) => x.has_role_for_user(&sc.users[k], "admin", None) };
+                            let want_has = dec_list(&sc.rrows[v][k]).iter().any(|r| r == "admin");
+                            if has != want_has { mm.lock().push(format!("thread {}: has_role_for_user({}, admin) = {} after {} writes, serial = {}", ti, sc.users[k], has, v, want_has)); }
+                        }
                         drop(g);
                     }
                 }
@@ -240,6 +251,12 @@ pub fn child(path: &str) -> i32 {
                         h.write().add_link("scratch_u", "scratch_r", None);
                         let _ = h.read().has_link("scratch_u", "scratch_r", None);
                         let _ = h.write().delete_link("scratch_u", "scratch_r", None);
+                        // every so often a longer critical section: a batch of scratch links under one write guard
+                        if n % 8 == 0 {
+                            let mut g = h.write();
+                            for i in 0..24 { g.add_link(&format!("scratch_u{}", i), "scratch_r", None); }
+                            for i in 0..24 { let _ = g.delete_link(&format!("scratch_u{}", i), "scratch_r", None); }
+                        }
                     } else {
                         let _ = h.read().has_link("scratch_u", "scratch_r", None);
                         let _ = h.read().get_roles("scratch_u", None);
@@ -420,13 +437,15 @@ pub fn run(rec: &mut Recorder, w: &mut World, tier: &str, seed: u64) {
                 let reqs = requests(&k);
                 let req_strs: Vec<String> = reqs.iter().map(|r| if r.is_empty() { "|".to_string() } else { r.join(",") }).collect();
                 let perms: Vec<String> = if name == "rbac" { vec![enc_list(&sv(&["data1", "read"])), enc_list(&sv(&["data2", "write"]))] } else { vec![] };
-                let snapshot = |rec: &mut Recorder, w: &mut World| -> (String, Vec<String>) {
+                let with_roles = name == "rbac";
+                let snapshot = |rec: &mut Recorder, w: &mut World| -> (String, Vec<String>, Vec<String>) {
                     let row = rec.exec(w, &format!("e.enfs\t{}", enc_reqs(&reqs)));
                     let ir = perms.iter().map(|p| rec.exec(w, &format!("e.iusers\t{}", p))).collect();
-                    (row, ir)
+                    let rr = if with_roles { users.iter().map(|u| rec.exec(w, &format!("e.roles\t{}\t-", esc(u)))).collect() } else { vec![] };
+                    (row, ir, rr)
                 };
-                let mut rows = vec![]; let mut irows = vec![];
-                let (r0, i0) = snapshot(rec, w); rows.push(r0); irows.push(i0);
+                let mut rows = vec![]; let mut irows = vec![]; let mut rrows: Vec<Vec<String>> = vec![];
+                let (r0, i0, q0) = snapshot(rec, w); rows.push(r0); irows.push(i0); if with_roles { rrows.push(q0); }
                 let hist_len = 4 + rng.below(if thorough { 12 } else { 6 });
                 let mut history = vec![];
                 let mut cur_rules = rules.clone();
@@ -440,14 +459,14 @@ pub fn run(rec: &mut Recorder, w: &mut World, tier: &str, seed: u64) {
                     };
                     rec.exec(w, &op.line());
                     history.push(op.line());
-                    let (r, i) = snapshot(rec, w); rows.push(r); irows.push(i);
+                    let (r, i, q) = snapshot(rec, w); rows.push(r); irows.push(i); if with_roles { rrows.push(q); }
                 }
                 let distinct_rows = rows.iter().collect::<std::collections::BTreeSet<_>>().len();
                 rec.count_n("serial:distinct-decision-rows", distinct_rows as u64);
                 // ---- concurrent runs (implementation only) ----
                 let base = Scenario { what: format!("{}{}", name, if cached { "+cached" } else { "" }), setup, history, reqs: req_strs, rows, perms, irows,
                     threads: 2, rounds: if thorough { 30 } else { 10 }, seed: rng.next(), writer: false, handle: "none".into(), helpers: false, rendezvous: false,
-                    users: users.clone(), watchdog_ms: 20000, ctx: None, ctx_rows: vec![], ctx2: None, ctx2_rows: vec![] };
+                    users: users.clone(), watchdog_ms: 20000, ctx: None, ctx_rows: vec![], ctx2: None, ctx2_rows: vec![], rrows };
                 let mut variants: Vec<Scenario> = vec![];
                 let th = thread_counts[si % thread_counts.len()];
                 variants.push(Scenario { threads: th, ..base.clone() });                                                       // readers only
@@ -510,7 +529,7 @@ pub fn run(rec: &mut Recorder, w: &mut World, tier: &str, seed: u64) {
         let th = thread_counts[si % thread_counts.len()].max(4);
         let base = Scenario { what: format!("two-sections{}", if cached { "+cached" } else { "" }), setup, history, reqs: req_strs, rows, perms: vec![], irows: vec![],
             threads: th, rounds: if thorough { 60 } else { 25 }, seed: rng.next(), writer: false, handle: "none".into(), helpers: false, rendezvous: false,
-            users: vec![], watchdog_ms: 20000, ctx: Some("2".into()), ctx_rows, ctx2: Some(sv(&["r2", "p2", "e2", "m3"])), ctx2_rows };
+            users: vec![], watchdog_ms: 20000, ctx: Some("2".into()), ctx_rows, ctx2: Some(sv(&["r2", "p2", "e2", "m3"])), ctx2_rows, rrows: vec![] };
         for v in [base.clone(), Scenario { writer: true, handle: "read".into(), ..base.clone() }] {
             if rec.hist.get("spec_failure:deadlock").copied().unwrap_or(0) >= 2 { continue; }
             let label = format!("{} threads={} writer={} (enforce mixed with enforce_with_context(2))", v.what, v.threads, v.writer);
@@ -543,7 +562,7 @@ pub fn run(rec: &mut Recorder, w: &mut World, tier: &str, seed: u64) {
         for ch in reqs.chunks(100) { row.push_str(&rec.exec(w, &format!("e.enfs\t{}", enc_reqs(ch)))); }
         let sc = Scenario { what: "many-requests+cached".into(), setup, history: vec![], reqs: req_strs, rows: vec![row], perms: vec![], irows: vec![],
             threads: if thorough { 16 } else { 8 }, rounds: if thorough { 200 } else { 50 }, seed: rng.next(), writer: false, handle: "none".into(), helpers: false, rendezvous: false,
-            users: vec![], watchdog_ms: 60000, ctx: None, ctx_rows: vec![], ctx2: None, ctx2_rows: vec![] };
+            users: vec![], watchdog_ms: 60000, ctx: None, ctx_rows: vec![], ctx2: None, ctx2_rows: vec![], rrows: vec![] };
         let label = format!("{} threads={} distinct requests={} run {}", sc.what, sc.threads, sc.reqs.len(), si);
         let out = rec.exec_impl_only(w, &format!("conc.run\t{}", esc(&serde_json::to_string(&sc).unwrap())));
         rec.count(&format!("run:many-requests:{}", out.split(|c| c == ':' || c == ' ').next().unwrap_or("")));
@@ -576,7 +595,7 @@ pub fn run(rec: &mut Recorder, w: &mut World, tier: &str, seed: u64) {
         for ch in reqs.chunks(60) { row.push_str(&rec.exec(w, &format!("e.enfs\t{}", enc_reqs(ch)))); }
         let sc = Scenario { what: "many-role-pairs".into(), setup, history: vec![], reqs: req_strs, rows: vec![row], perms: vec![], irows: vec![],
             threads: if thorough { 16 } else { 8 }, rounds: if thorough { 120 } else { 40 }, seed: rng.next(), writer: false, handle: "none".into(), helpers: false, rendezvous: false,
-            users: vec![], watchdog_ms: 60000, ctx: None, ctx_rows: vec![], ctx2: None, ctx2_rows: vec![] };
+            users: vec![], watchdog_ms: 60000, ctx: None, ctx_rows: vec![], ctx2: None, ctx2_rows: vec![], rrows: vec![] };
         let label = format!("{} threads={} distinct requests={} run {}", sc.what, sc.threads, sc.reqs.len(), si);
         let out = rec.exec_impl_only(w, &format!("conc.run\t{}", esc(&serde_json::to_string(&sc).unwrap())));
         rec.count(&format!("run:many-role-pairs:{}", out.split(|c| c == ':' || c == ' ').next().unwrap_or("")));
@@ -615,7 +634,7 @@ pub fn run(rec: &mut Recorder, w: &mut World, tier: &str, seed: u64) {
         rec.count_n("domain-matching:serial-grants", row.bytes().filter(|&c| c == b't').count() as u64);
         let sc = Scenario { what: "domain-matching-function".into(), setup, history: vec![], reqs: req_strs, rows: vec![row], perms: vec![], irows: vec![],
             threads: if thorough { 16 } else { 8 }, rounds: if thorough { 120 } else { 40 }, seed: rng.next(), writer: false, handle: "none".into(), helpers: false, rendezvous: false,
-            users: vec![], watchdog_ms: 60000, ctx: None, ctx_rows: vec![], ctx2: None, ctx2_rows: vec![] };
+            users: vec![], watchdog_ms: 60000, ctx: None, ctx_rows: vec![], ctx2: None, ctx2_rows: vec![], rrows: vec![] };
         let label = format!("{} threads={} distinct requests={} run {}", sc.what, sc.threads, sc.reqs.len(), si);
         let out = rec.exec_impl_only(w, &format!("conc.run\t{}", esc(&serde_json::to_string(&sc).unwrap())));
         rec.count(&format!("run:domain-matching:{}", out.split(|c| c == ':' || c == ' ').next().unwrap_or("")));
